@@ -6,6 +6,7 @@ package simos
 
 import (
 	"errors"
+	"fmt"
 	"io"
 	"io/fs"
 	"os"
@@ -308,7 +309,15 @@ func MkdirTemp(dir, pattern string) (string, error) {
 		return "", err
 	}
 	os.MkdirAll(Real(dir), 0o777)
-	p, err := os.MkdirTemp(Real(dir), pattern)
+	var p string
+	var err error
+	for try := 0; try < 10000; try++ {
+		p = filepath.Join(Real(dir), tempName(pattern))
+		err = os.Mkdir(p, 0o700)
+		if !os.IsExist(err) {
+			break
+		}
+	}
 	r.Done(0, err)
 	if err != nil {
 		return "", fixErr(err, dir)
@@ -487,13 +496,37 @@ func CreateTemp(dir, pattern string) (*File, error) {
 		r.Done(0, err)
 		return nil, err
 	}
-	f, err := os.CreateTemp(Real(dir), pattern)
+	// the random part of the name is one more source of nondeterminism: it comes from a
+	// per-process counter, so that the same history produces the same names (replay, and
+	// the differential oracles compare disks of two executions)
+	var f *os.File
+	var err error
+	for try := 0; try < 10000; try++ {
+		f, err = os.OpenFile(filepath.Join(Real(dir), tempName(pattern)), os.O_RDWR|os.O_CREATE|os.O_EXCL, 0o600)
+		if !os.IsExist(err) {
+			break
+		}
+	}
 	r.Done(0, err)
 	if err != nil {
 		return nil, fixErr(err, dir)
 	}
 	n := strings.TrimPrefix(f.Name(), root)
 	return &File{f: f, name: n, nom: n}, nil
+}
+
+var tempSeq int
+
+// tempName: like os.CreateTemp, the last "*" of the pattern (or its end) receives the
+// variable part - a counter instead of a random number. Only called from the one
+// runnable task (the scheduler serialises everything), so the plain counter is safe.
+func tempName(pattern string) string {
+	tempSeq++
+	v := fmt.Sprintf("%09d", tempSeq)
+	if i := strings.LastIndex(pattern, "*"); i >= 0 {
+		return pattern[:i] + v + pattern[i+1:]
+	}
+	return pattern + v
 }
 
 func (f *File) Name() string { return f.name }
